@@ -175,6 +175,26 @@ def sibling_runs(ctx):
                             fails.append(("pyc-not-zeroed", "%s: pyc header timestamp not zeroed exactly" % label, label))
                 finally:
                     t.remove()
+    # requested together with the pyc handler, in either order, on a file whose header is fine but whose payload the pyc handler cannot parse
+    # (or which is of a version it leaves alone): the other handler's failure or refusal does not keep the timestamp from being zeroed
+    for sel in ("pyc,pyc-zero-mtime", "pyc-zero-mtime,pyc"):
+        for jobs in ([], ["-j2"]):
+            for what, data in (("unparseable-payload", pyc[:16] + b"!"), ("truncated-payload", pyc[:40]), ("python-3.3", samples.old_pyc(3230))):
+                t = fh.Tree()
+                try:
+                    t.add_file("d/__pycache__/mod.cpython-312.pyc", data, mtime_ns=1_650_000_000_000_000_000)
+                    t.add_file("d/__pycache__/mod.py", b"print(1)\n", mtime_ns=1_650_000_000_000_000_000)
+                    rc, out = fh.run_cli(jobs + ["--handler", sel, t.path("d")], epoch=samples.EPOCH, timeout=30)
+                    a = open(t.path("d/__pycache__/mod.cpython-312.pyc"), "rb").read()
+                    n += 1
+                    label = "--handler %s %s on a pyc with %s" % (sel, " ".join(jobs), what)
+                    off = 4 if what == "python-3.3" else 8
+                    if a[off:off + 4] != b"\0\0\0\0" or a[:off] != data[:off] or a[off + 4:] != data[off + 4:]:
+                        fails.append(("pyc-not-zeroed", "%s: header timestamp not zeroed exactly (bytes %s)" % (label, a[off:off + 4].hex()), label))
+                    elif os.stat(t.path("d/__pycache__/mod.py")).st_mtime_ns != 0:
+                        fails.append(("sibling-mtime", "%s: the source file's mtime was not set to 0" % label, label))
+                finally:
+                    t.remove()
     # never without request: not by default, and not because another handler's name was asked for
     for sel in ([], ["--handler", "pyc"], ["--handler", "ar,pyc"], ["--handler", "pyc", "-j2"], ["--handler=-ar"], ["--handler=-pyc"]):
         t = fh.Tree()
